@@ -53,16 +53,25 @@ def decodeMapObs : List Sexp → Option MapObs
     | _, _, _ => none
   | _ => none
 
-/-- model output = implementation output, for BOTH entry points, the map and the lookups -/
+/-- same names, order aside -/
+def sameNames (a b : List String) : Bool :=
+  a.length == b.length && a.all b.contains && b.all a.contains
+
+/-- model output = implementation output, for BOTH entry points, the map and the lookups. Successes are
+compared exactly; for failures any misuse kind applicable somewhere the expansion can reach counts as
+agreeing (`C20.misuseKinds`; the model's own error is one of them), payloads are not compared and the two
+entry points need not pick the same one. -/
 def agrees (p : Program String) (sel : String → Bool) (obs : Obs) (mo : Option MapObs) : Bool :=
   match expandProgramWithMap p sel, obs.mapped, obs.plain, mo with
   | .ok (q, m), .ok body kept intact, .ok body' kept' intact', some mo =>
-    decide (q.body = body) && kept == q.defs.map (·.name) && intact &&
-      decide (q.body = body') && kept' == q.defs.map (·.name) && intact' &&
+    decide (q.body = body) && sameNames kept (q.defs.map (·.name)) && intact &&
+      decide (q.body = body') && sameNames kept' (q.defs.map (·.name)) && intact' &&
       mapBeq m mo.map &&
       mo.ls == (List.range q.body.length).map (listSources m) &&
       mo.lt == (List.range p.body.length).map (listTargetsCount m)
-  | .err e, .err e', .err e'', _ => decide (e = e') && decide (e = e'')
+  | .err _, .err e', .err e'', _ =>
+    let kinds := misuseKinds p.defs sel p.body
+    kinds.contains e'.kind && kinds.contains e''.kind
   | _, _, _, _ => false
 
 /-- The specification evaluated on the implementation's output:
@@ -72,17 +81,20 @@ def agrees (p : Program String) (sel : String → Bool) (obs : Obs) (mo : Option
   `C21_unmodified`, `C21_rewritten`, `C21_map_certifies_expansion`), the public lookups agree with the map
   the implementation returned and are unique (`C21_list_sources`, `C21_list_targets`), repeated calls return
   the same (`again`), the definitions are the ones C20 retains;
-* `Err`: the other entry point returned the same error, which is the one `C20.expand` reports
-  (`C21_same_outcome`), and formatting it did not panic. -/
+* `Err`: the other entry point failed too (`C21_same_outcome`), each with a misuse kind that is applicable
+  somewhere the expansion can reach (`C20_misuseKinds_iff`, `C20_error_iff_misuse`; which one, its payload and
+  text are not demanded), and formatting them did not panic. -/
 def specCheck (p : Program String) (sel : String → Bool) (obs : Obs) (mo : Option MapObs) : Bool :=
   obs.fullsame && obs.again && obs.errfmt &&
   match obs.mapped, obs.plain, mo with
   | .ok body kept intact, .ok body' _ _, some mo =>
-    intact && decide (body = body') && kept == (keptDefs p.defs sel).map (·.name) &&
+    intact && decide (body = body') && sameNames kept ((keptDefs p.defs sel).map (·.name)) &&
       checkMap p.defs sel mo.map 0 0 p.body body &&
       mo.ls == (List.range body.length).map (listSources mo.map) && mo.ls.all (·.length == 1) &&
       mo.lt == (List.range p.body.length).map (listTargetsCount mo.map) && mo.lt.all (· == 1)
-  | .err e, .err e', _ => decide (e = e') && decide (C20.expand p.defs sel p.body = .err e)
+  | .err e, .err e', _ =>
+    let kinds := misuseKinds p.defs sel p.body
+    kinds.contains e.kind && kinds.contains e'.kind
   | _, _, _ => false
 
 def handle (inp out : Sexp) : CaseResult :=
